@@ -160,6 +160,23 @@ fn verif_grid() {
         let want = vec![r#"{"x":-0.0,"u.name":"zero"}"#, r#"{"x":1.0,"u.name":"one"}"#, r#"{"x":1.0,"u.name":"uno"}"#];
         match r { Outcome::Lines(l, _) => if l.iter().map(|s| s.as_str()).collect::<Vec<_>>() == want { Ok(()) } else { Err(format!("join on REAL keys printed {:?}, expected {:?}", l, want)) }, other => Err(format!("{:?}", other)) }
     });
+    // the joined file is read like any input: a line with a single field is a row of a split table, and CRLF line ends are line ends
+    g.case("joined-split-table-single-field-and-crlf", || {
+        let def = "CREATE TABLE t(line = '^u=(\\\\w+) h=(\\\\w*)$', line[1] => user TEXT, line[2] => host TEXT); CREATE TABLE hosts(f = split ',', f[1] => name TEXT, f[2] => site TEXT);";
+        let lines = ["u=ann h=alpha", "u=bob h=beta", "u=cy h=gamma"];
+        let want = vec![r#"{"user":"ann","hosts.site":"eu"}"#.to_owned(), r#"{"user":"bob","hosts.site":null}"#.to_owned(), r#"{"user":"cy","hosts.site":"ap"}"#.to_owned()];
+        for (what, content) in [("LF", "alpha,eu\nbeta\ngamma,ap\n"), ("CRLF", "alpha,eu\r\nbeta\r\ngamma,ap\r\n"), ("CRLF, key last on the line", "eu,alpha\r\n,beta\r\nap,gamma\r\n")] {
+            let file = write_temp("joined", content.as_bytes());
+            let on = if what.ends_with("line") { "CREATE" } else { "" };
+            let (def2, query) = if on.is_empty() { (def.to_owned(), format!("SELECT user, hosts.site FROM t INNER JOIN hosts::'{}' ON t.host = hosts.name", file.display())) }
+                else { (def.replace("f[1] => name TEXT, f[2] => site TEXT", "f[2] => name TEXT, f[1] => site TEXT"), format!("SELECT user, hosts.site FROM t INNER JOIN hosts::'{}' ON t.host = hosts.name", file.display())) };
+            let r = q(&def2, &query, &lines);
+            let _ = std::fs::remove_file(&file);
+            let want2: Vec<String> = if on.is_empty() { want.clone() } else { vec![want[0].clone(), r#"{"user":"bob","hosts.site":""}"#.to_owned(), want[2].clone()] };
+            match r { Outcome::Lines(l, _) => if l != want2 { return Err(format!("joined file ({}) {:?}: printed {:?}, the pairs with equal keys are {:?}", what, content, l, want2)); }, other => return Err(format!("joined file ({}): {:?}", what, other)) }
+        }
+        Ok(())
+    });
     g.case("timestamp-keys", || {
         let def = "CREATE TABLE t(line = '^at=(.+)$', line[1] => at TIMESTAMP); CREATE TABLE u(line = '^when=(.+) what=(\\\\w+)$', line[1] => at2 TIMESTAMP, line[2] => what TEXT);";
         let file = write_temp("joined", &join_lines(&["when=2020-01-01 00:00:00 what=newyear", "when=2020-06-15 12:30:00 what=noonish", "when=never what=bad"]));
